@@ -24,7 +24,7 @@ mvars == <<l, S, B, lab, pre, sum, ended, esum, creators, everDep, fgn>>
 
 HooksOfJ(js) == [h \in {js[i].id : i \in DOMAIN js} |->
                   LET x == js[CHOOSE i \in DOMAIN js : js[i].id = h] IN
-                  [kind |-> x.kind, events |-> Range(x.events), weight |-> x.weight, pols |-> Range(x.pols)]]
+                  [kind |-> x.kind, events |-> Range(x.events), weight |-> x.weight, pols |-> Range(x.pols), keep |-> x.keep]]
 
 ManOfJ(jm) == [r \in DOMAIN jm |-> [kind |-> jm[r].kind, f1 |-> jm[r].f1, f2 |-> jm[r].f2, pol |-> jm[r].pol, ver |-> jm[r].ver]]
 
